@@ -27,6 +27,7 @@ type cenv struct {
 	old  *State
 	pkg  *types.Package
 	ctx  string // for error messages
+	prev *State // the state before the current iteration of a call-site loop (prev(e))
 }
 
 type cevalErr string
@@ -531,6 +532,13 @@ func (env *cenv) call(e *CExpr) cval {
 			env.fail("old() not available here")
 		}
 		return env.inOld().eval(args[0])
+	case "prev":
+		if env.prev == nil {
+			env.fail("prev() is only available in the step clauses of a call-site loop")
+		}
+		n := *env
+		n.cur = env.prev
+		return n.eval(args[0])
 	case "len":
 		a := env.eval(args[0])
 		switch a.sort {
@@ -546,6 +554,21 @@ func (env *cenv) call(e *CExpr) cval {
 			}
 		}
 		env.fail("len of %s", args[0])
+	case "timescalled":
+		// timescalled(k): how often the foreach callback has been called for key k so far (inside the iterating function)
+		k := env.eval(args[0])
+		if _, ok := g.varSort[feCalls]; !ok {
+			env.fail("timescalled: the function has no foreach clause")
+		}
+		return env.intv(fmt.Sprintf("(select %s %s)", g.get(env.cur, feCalls), k.term))
+	case "card":
+		// card(visited): the number of keys in a visited-set
+		a := env.eval(args[0])
+		if !strings.HasPrefix(a.sort, "(Array ") || !strings.HasSuffix(a.sort, " Bool)") {
+			env.fail("card of %s", args[0])
+		}
+		ks := strings.TrimSuffix(strings.TrimPrefix(a.sort, "(Array "), " Bool)")
+		return env.intv(fmt.Sprintf("(%s %s)", g.cardFun(ks), a.term))
 	case "has":
 		m := env.eval(args[0])
 		k := env.eval(args[1])
